@@ -10,6 +10,7 @@ import (
 	"sort"
 	"strings"
 	"time"
+	"verifsim/peer"
 
 	"verifsim/kernel"
 )
@@ -24,7 +25,7 @@ const ncDefaultsNS = "urn:ietf:params:xml:ns:yang:ietf-netconf-with-defaults"
 var datastores = []string{"running", "candidate", "startup"}
 
 func genXMLFragment(r *rand.Rand, depth int) string {
-	name := pick(r, "interfaces", "interface", "name", "system", "config-item", "a", "ns:leaf", "x_y")
+	name := pick(r, "interfaces", "interface", "name", "system", "config-item", "a", "ns:leaf", "x_y", "filter", "config", "rpc")
 	pfxDecl := ""
 	if strings.HasPrefix(name, "ns:") {
 		pfxDecl = ` xmlns:ns="urn:example:ns"`
@@ -136,6 +137,13 @@ func genC03(seed uint64, run int, tier string) Scenario {
 	sc.NoHeader = r.IntN(2) == 0
 	for i := between(r, 1, 8); i > 0; i-- {
 		sc.Ops = append(sc.Ops, genNCOp(r))
+		// the server refuses some requests: what the response reports as its input must not
+		// depend on the outcome
+		rep := peer.NCReply{Mode: "now", Payload: `<rpc-reply xmlns="urn:ietf:params:xml:ns:netconf:base:1.0" message-id="{MID}"><ok/></rpc-reply>`}
+		if r.IntN(4) == 0 {
+			rep.Payload = `<rpc-reply xmlns="urn:ietf:params:xml:ns:netconf:base:1.0" message-id="{MID}"><rpc-error><error-type>application</error-type><error-tag>operation-failed</error-tag><error-severity>error</error-severity></rpc-error></rpc-reply>`
+		}
+		sc.Server.Replies = append(sc.Server.Replies, rep)
 	}
 	if !sc.SelfClosing && r.IntN(5) == 0 {
 		// one request whose serialised size sits exactly on (or right next to) a power-of-two
